@@ -127,6 +127,10 @@ def report(prop, tier, seed, t0, camp, design, extra_cov=None, assumptions=()):
         'samples': camp['samples'][:3] or [{'note': 'no sample'}],
         'clause_nontrivial_evaluations': own_nt,
         'other_property_clause_failures_seen': notes,
+        'drift': {'what': 'DRIFT detection: transcribed table algorithms of spec/ChangePoints.tla applied to the logged raw pre-table '
+                          'must give the logged raw post-table (a failure is a note, not a violation)',
+                  'evaluations': {k: v for k, v in nt.items() if k.startswith('drift.')},
+                  'failures': {k: v for k, v in notes.items() if k.startswith('drift.')}},
         'design_models': [{k: d[k] for k in ('model', 'states', 'transitions', 'what')} for d in design],
         'exhaustive': False,
     }
@@ -135,6 +139,9 @@ def report(prop, tier, seed, t0, camp, design, extra_cov=None, assumptions=()):
     evidence.write(prop, tier, seed, cov, wall, len(new), COMMON_ASSUMPTIONS + list(assumptions))
     if notes:
         print('note: clauses of other properties failed in these histories: %s' % json.dumps(notes))
+    if any(k.startswith('drift.') for k in notes):
+        print('DRIFT: the code no longer follows the transcription in spec/ChangePoints.tla for: %s'
+              % sorted(k for k in notes if k.startswith('drift.')))
     print('%s %s: %d histories, %d events validated by TLC (%d states), %d violations (%d known), %.1fs'
           % (prop, tier, len(camp['rows']), camp['events'], states, len(new), len(viol) - len(new), wall))
     return 1 if new else 0
